@@ -178,6 +178,20 @@ def run(ctx):
                             and 'joints' in show(rv[0][3], maxdepth=4) and util.is_param(strip(strip(rv[0][3])[1]) if strip(rv[0][3])[0] == 'fld' else ('x',), 2):
                         found = True
         whole = whole and found
+    # the sweep sees every waypoint that was pushed: nothing is removed from the trace before it (waypoints dropped first -
+    # say the interpolated ones when they are not wanted in the output - would never be tested although the robot moves through them)
+    removers = opw.VEC_REMOVERS | {'retain', 'retain_mut', 'dedup', 'dedup_by', 'dedup_by_key'}
+    for bi, t in probe.calls():
+        n = cname(callee_name(t)).split('::')[-1]
+        if n in removers and t['args'] and _root_local(probe, t['args'][0], bi) == trace_local[0]:
+            after = False
+            for g, k, sw in probe.guard_terms(bi):
+                g = strip(g)
+                if isinstance(g, tuple) and g[0] == 'call' and cname(g[1]).split('::')[-1] == 'any' and opw.truth(k) is False and \
+                        _is_local_term(probe, util.iter_chain(g[2])[0], trace_local[0]):
+                    after = True
+            ctx.check(after, 'R12.1', 'sweep-before-%s' % n, probe.where(bi), probe.path,
+                      'waypoints are removed from the trace (%s) before the collision sweep: the removed ones are never checked' % n, detail='%s after the sweep' % n)
     for bi, cls, elem_checked, desc in classes:
         key = 'push@%s' % desc
         if cls == 'trusted' or cls.startswith('param:'):
